@@ -127,6 +127,16 @@ func Start(prop, level string) *R {
 		}
 	}
 	r.deadline = r.start.Add(budget)
+	// hard deadline: the budget above is polled between units of work; code under test that never
+	// comes back (a call that blocks for ever) would keep the run from ever polling it. Well after the
+	// budget the run ends itself with what it has: recorded violations are reported, otherwise the
+	// verdict is "not exhaustive" - never a hang.
+	go func() {
+		time.Sleep(budget + 75*time.Second)
+		r.Incomplete("hard deadline reached: part of the run did not come back from the code under test (a call that never returns, or a machine far too slow); what was explored until then is reported")
+		fmt.Fprintln(os.Stderr, "note: hard deadline reached; ending the run with what was explored")
+		r.Finish("run ended by its hard deadline", false)
+	}()
 	// worker processes of the same run (schedule search shards) inherit the deadline
 	if os.Getenv("VERIF_DEADLINE_UNIX") == "" {
 		os.Setenv("VERIF_DEADLINE_UNIX", strconv.FormatInt(r.deadline.Unix(), 10))
